@@ -75,8 +75,21 @@ def run(report, p):
         raises = [n for n in g.nodes if n.kind == "stmt" and isinstance(n.ast, ast.Raise) and raised_class(p, f, n.ast) == c30]
         ok = len(raises) >= 1
         for rn in raises:
-            deps = [(norm(t.ast).replace(" ", ""), l) for t, l in g.control_deps(rn) if t.kind == "test"]
-            ok = ok and len(deps) == 1 and deps[0][0].startswith("len(") and deps[0][0].endswith(".hash_lists)==0") and deps[0][1] == "T" and any(g.dominates(ln, rn) for ln in loads)
+            from .common import atomic_deps as _ad
+
+            deps = [(a.replace(" ", ""), l) for t, l in g.control_deps(rn) if t.kind == "test" for a, l in _ad(t.ast, l)]
+
+            def _empty_test(a, l):
+                # `len(h.hash_lists) == 0` true  /  `not h.hash_lists`  /  `len(h.hash_lists) < 1` true  /  `len(...) > 0` false
+                if a.startswith("len(") and a.endswith(".hash_lists)==0") and l == "T":
+                    return True
+                if a.endswith(".hash_lists") and not a.startswith("len(") and l == "F":
+                    return True
+                if a.startswith("len(") and (a.endswith(".hash_lists)<1") and l == "T" or a.endswith(".hash_lists)>0") and l == "F" or a.endswith(".hash_lists)>=1") and l == "F"):
+                    return True
+                return False
+
+            ok = ok and len(deps) == 1 and _empty_test(*deps[0]) and any(g.dominates(ln, rn) for ln in loads)
         r1.check(ok, f, raises[0].ast if raises else f.node, "the listing function does not raise the no-history error exactly when the loaded history has no generations", construct="no-history raise")
         # listing (info logs inside loops) only after the check
         for n in g.nodes:
